@@ -3878,6 +3878,11 @@ func clauseChanDir(n *node) (*node, *node, *node, reflect.SelectDir) {
 			switch m.anc.action {
 			case aAssign:
 				assigned = m.anc.child[0]
+				if isCommRecvAssign(m.anc) {
+					// The value is received at the location of the receive expression,
+					// then assigned by the statement.
+					assigned = m
+				}
 			case aAssignX:
 				assigned = m.anc.child[0]
 				ok = m.anc.child[1]
@@ -3922,9 +3927,12 @@ func _select(n *node) {
 		case len(cl.child) > 1 || c0.action == aAssign || c0.action == aAssignX:
 			// The comm clause contains a channel operation and a clause body,
 			// or it assigns the received value and has an empty clause body.
-			if len(cl.child) > 1 {
+			switch {
+			case isCommRecvAssign(c0):
+				clause[i] = getExec(c0.start)
+			case len(cl.child) > 1:
 				clause[i] = getExec(cl.child[1].start)
-			} else {
+			default:
 				clause[i] = func(*frame) bltn { return next }
 			}
 			chans[i], assigned[i], ok[i], cases[i].Dir = clauseChanDir(c0)
